@@ -379,6 +379,21 @@ def run_history(rng, length, ndim=None, allow=None):
         steps.append(st)
         if st.err:
             break
+        # between two operations a caller may READ the live index (forced queries compute the common rows): reads must not
+        # influence what later operations do
+        if rng.random() < 0.5 and 1 <= len(ix.shape) <= 2 and all(e > 0 for e in ix.shape[1:]):
+            try:
+                if len(ix.shape) == 1:
+                    ix.common_rowids()
+                    ix.get((ix.common,), force=True)
+                else:
+                    for c in range(ix.shape[1]):
+                        ix.common_rowids(c)
+                        ix.get((ix.common, c), force=True)
+                list(ix.items(force=True))
+                ix.to_dict(force=True)
+            except Exception:
+                pass
     return steps
 
 
